@@ -257,3 +257,16 @@ Definition oracle_c04 (c : sim_case) : list Z :=
   (if inner_inside None (sc_ticklog c) then [] else [49]) ++
   (if forallb (fun lv => nondecreasing (map fst (log_of_level lv (sc_ticklog c)))) (keys (sc_cfg c)) then [] else [46]).
 Definition check_sim_c04 (c : sim_case) : list Z := check_sim c ++ oracle_c04 c.
+
+(* ---------- C08 on whole simulations: one simulation on the synchronous in-memory bus (the
+   reference) and on a conforming bus that delays and reorders deliveries (per-topic FIFO kept,
+   one message at a time per consumer, replay on subscribe).
+   22: some device observes another (time, inputs) sequence under some delivery schedule;
+   51/52 of a delayed run: it differs from the model as well *)
+Definition sched_case := (sim_case * list sim_case)%type.
+Definition check_sim_obs (c : sim_case) : list Z :=
+  filter (fun x => Z.eqb x 51 || Z.eqb x 52) (check_sim c).
+Definition check_sched (g : sched_case) : list Z :=
+  let '(r, ds) := g in
+  check_sim_all r ++ flat_map check_sim_obs ds ++
+  (if forallb (fun d => same_devices r d && same_devices d r) ds then [] else [22]).
